@@ -16,7 +16,7 @@ THEOREMS = {"Artap.Props.C13": [
     "C13_fullfact_index_bijective", "C13_fullfact_bijective",
     "C13_pb_structure", "C13_pb_levels", "C13_pb_rejects",
     "C13_bb_structure", "C13_bb_levels",
-    "C13_gsd_partition", "C13_gsd_generate_subset"]}
+    "C13_gsd_partition", "C13_gsd_complementary", "C13_gsd_generate_subset"]}
 AXIOMS_OK = []
 TRUSTED = [
     "Coq 8.16.1 kernel, vm_compute (the 23 Plackett-Burman sizes are checked by kernel computation; model evaluation in the correspondence)",
